@@ -20,7 +20,7 @@ def gen(tier, seed):
     groups = []
     for kind in ('R2', 'R3'):
         for n_poses in ((2, 3, 4, 5, 6, 8, 10) if thorough else (2, 3, 4, 6)):
-            for _ in range(6 if thorough else 2):
+            for _ in range(18 if thorough else 2):
                 topo = ['tree', 'loop', 'multi'][len(groups) % 3]
                 c = GC.gen_graph(rnd, kind, n_poses, rnd.choice([0, 1, 2]) if topo != 'tree' else rnd.choice([0, 1]), 0 if topo == 'tree' else rnd.choice([1, 3]),
                                  custom=False, fixed_mode=rnd.choice(['first', 'some', 'landmark']), fix_first=rnd.random() < 0.5,
